@@ -4,11 +4,13 @@ package props
 
 import (
 	"bytes"
+	"crypto"
 	"crypto/rand"
 	"crypto/sha256"
 	"crypto/x509"
 	encasn1 "encoding/asn1"
 	"fmt"
+	"io"
 	"math/big"
 	"strconv"
 	"strings"
@@ -121,6 +123,17 @@ var c05Lens = []int{0, 1, 2, 55, 56, 63, 64, 65, 127, 128, 129, 255, 256, 257, 6
 
 // c05Content builds content of exactly n bytes; for non-data types it is a
 // concatenation of DER OCTET STRINGs (lengths 0 and 1 cannot be DER elements: they are raw).
+// c05Shapes are other DER shapes of non-data content (the library puts the content inside a
+// SEQUENCE itself): one complete SEQUENCE element, two SEQUENCEs, a SEQUENCE followed by an
+// OCTET STRING, a single OCTET STRING, an empty SEQUENCE.
+func c05Shapes() [][]byte {
+	seq := func(body ...byte) []byte { return append([]byte{0x30, byte(len(body))}, body...) }
+	oct := func(body ...byte) []byte { return append([]byte{0x04, byte(len(body))}, body...) }
+	a := seq(append(oct(1, 2, 3), oct(4, 5)...)...)
+	b := seq(oct(9, 9, 9)...)
+	return [][]byte{a, append(append([]byte{}, a...), b...), append(append([]byte{}, a...), oct(7)...), oct(1, 2, 3, 4), seq(), append(seq(), seq()...)}
+}
+
 func c05Content(n int, data bool) []byte {
 	if data || n < 2 {
 		return fill(n, 0x2f)
@@ -381,6 +394,80 @@ func c05Run(c *hx.Ctx, tier, unit string) {
 					c.Sample(label)
 				}
 				c05Check(c, k, cert, ty, c05Content(n, ty.name == "data"), nil, label)
+			}
+			if ty.name != "data" {
+				for si, shape := range c05Shapes() {
+					if !c.Next() {
+						continue
+					}
+					c05Check(c, k, cert, ty, shape, nil, fmt.Sprintf("key=k%d issuer=%s serial=%s type=%s content-shape=%d", k, iss.name, serial.Text(16), ty.name, si))
+				}
+			}
+		}
+		// two signing operations overlapping: while the first is inside its signer, a second one
+		// (other content, other type) runs to completion; both outputs must be what they are alone
+		c05Overlap(c, k, cert)
+	}
+}
+
+// nestingSigner runs another complete signing operation from inside Sign, before signing.
+type nestingSigner struct {
+	inner crypto.Signer
+	hook  func()
+	done  bool
+}
+
+func (s *nestingSigner) Public() crypto.PublicKey { return s.inner.Public() }
+func (s *nestingSigner) Sign(r io.Reader, d []byte, o crypto.SignerOpts) ([]byte, error) {
+	if !s.done {
+		s.done = true
+		s.hook()
+	}
+	return s.inner.Sign(r, d, o)
+}
+
+func c05Overlap(c *hx.Ctx, k int, cert *x509.Certificate) {
+	types := c05Types()
+	for ai, ta := range types {
+		for _, tb := range []c05Type{types[(ai+1)%len(types)], ta} {
+			if !c.Next() {
+				continue
+			}
+			ca, cb := c05Content(64, ta.name == "data"), c05Content(257, tb.name == "data")
+			var blobA, blobB []byte
+			var errA, errB error
+			ns := &nestingSigner{inner: memoSignerFor(k)}
+			ns.hook = func() { blobB, errB = pkcs7.SignPKCS7(memoSignerFor(k), cert, tb.oid, cb) }
+			if pn := hx.Try(func() { blobA, errA = pkcs7.SignPKCS7(ns, cert, ta.oid, ca) }); pn != nil || errA != nil || errB != nil {
+				c.Violation("C05 overlapping signing operations fail", map[string]any{"error": fmt.Sprint(errA, errB, pn)})
+				continue
+			}
+			okAll := true
+			for _, x := range []struct {
+				blob, content []byte
+				ty            c05Type
+				who           string
+			}{{blobA, ca, ta, "the operation that was inside its signer"}, {blobB, cb, tb, "the operation that ran meanwhile"}} {
+				det := x.content
+				if x.ty.name != "data" {
+					det = nil
+				}
+				sd, perr := refp7.Parse(x.blob)
+				if perr != nil {
+					okAll = false
+					c.Violation("C05 overlapping signing operations: output of "+x.who+" does not parse", nil)
+					continue
+				}
+				sum := sha256.Sum256(x.content)
+				if v := sd.Valid(cert, det); !v.OK || !bytes.Equal(sd.Signers[0].MessageDigest(), sum[:]) || !bytes.Equal(sd.Signers[0].ContentType(), x.ty.raw) {
+					okAll = false
+					c.Outcome("violation:overlap")
+					c.Violation("C05 overlapping signing operations: output of "+x.who+" is not a valid signature over its own content ("+v.Reason+")", map[string]any{"types": []string{ta.name, tb.name}, "blob": hx8(x.blob)})
+				}
+			}
+			if okAll {
+				c.Outcome("overlap-ok")
+				c.Nontrivial([]byte("overlap"), []byte(ta.name), []byte(tb.name), []byte{byte(k)})
 			}
 		}
 	}
